@@ -34,6 +34,9 @@ def priority_guard():
                 continue
             if re.search(r"RNG|gen_priority|thread_local|Cell", c) and "priority <" not in c:
                 continue
+            # drawing a priority from the generator and handing it on unchanged
+            if re.match(r"^let priority = \w+\.next_raw\(\) as Priority;$", c) or c in ("priority", "priority,"):
+                continue
             # comparisons between two `.priority` reads
             if re.search(r"\.priority\s*(<=|>=|<|>|==|!=)\s*[\w.()]*\.priority", c):
                 continue
